@@ -713,7 +713,7 @@ func (pi *placedImage) oracle(c *cfgSpec, got []fa, selected map[string]bool) {
 
 func sectionPlacement(r *hx.Rand) {
 	initRuleCategories()
-	nImages := run.N(150, 450)
+	nImages := run.N(150, 270) // thorough: 270 x 6 check lines of ~27 KB (in.txt per seed < 200 MB)
 	perImage := 9
 	skip := map[string]bool{"PROTOVALIDATE": true}
 	seenClass := map[string]bool{}
